@@ -83,7 +83,27 @@ func (e *Engine) generate(prop string, only string) *runResult {
 		}
 		names = append(names, key)
 	}
-	for _, key := range names {
+	// Dependency closure (property checks): a proof of a function uses the contracts of its callees, so a property is only
+	// decided by its own check if the clauses its functions rely on are discharged there too. Every repository function
+	// whose contract is applied at a call site of a function in the set joins the set (transitively; through an
+	// interface or function-type contract: every function that "implements" it), with ALL its obligations.
+	inSet := map[string]bool{}
+	dep := map[string]bool{}
+	for _, k := range names {
+		inSet[k] = true
+	}
+	implementers := map[string][]string{}
+	for _, key := range e.specs.Order {
+		c := e.specs.Contracts[key]
+		if c.Kind == "func" && !c.Trusted {
+			for _, im := range c.Impl {
+				implementers[im] = append(implementers[im], key)
+			}
+		}
+	}
+	closure := prop != "" && only == "" && os.Getenv("GOVC_NODEPS") == ""
+	for qi := 0; qi < len(names); qi++ {
+		key := names[qi]
 		c := e.specs.Contracts[key]
 		fn := e.funcs[c.Name]
 		if fn == nil {
@@ -97,16 +117,63 @@ func (e *Engine) generate(prop string, only string) *runResult {
 		}
 		rr.fcs = append(rr.fcs, fc)
 		rr.funcs = append(rr.funcs, c.Name)
+		if closure {
+			var used []*Contract
+			for uc := range fc.usedContracts {
+				used = append(used, uc)
+			}
+			sort.Slice(used, func(i, j int) bool { return used[i].Name < used[j].Name })
+			add := func(k string) {
+				dc := e.specs.Contracts[k]
+				if dc == nil || dc.Kind != "func" || dc.Trusted || inSet[k] {
+					return
+				}
+				if dc.ThoroughOnly && e.tier != "thorough" {
+					e.assumptionsUsed["contract of "+dc.Name+" is discharged in the thorough tier only (its proof needs more than the quick per-obligation budget); in this quick run it is assumed at its call sites"] = true
+					return
+				}
+				inSet[k] = true
+				dep[k] = true
+				names = append(names, k)
+			}
+			for _, uc := range used {
+				switch uc.Kind {
+				case "func":
+					add(uc.Name)
+				case "iface", "functype":
+					ims := append([]string(nil), implementers[uc.Name]...)
+					sort.Strings(ims)
+					for _, k := range ims {
+						add(k)
+					}
+				}
+			}
+		}
 		for _, o := range fc.obls {
 			if hasProp(o.Props, "thorough") && e.tier != "thorough" {
 				continue
 			}
-			if prop != "" && only == "" {
+			if prop != "" && only == "" && !dep[key] {
 				// obligations of the property: tagged clauses, plus untagged safety/frame/pre/cover of tagged functions
 				if len(o.Props) > 0 && !hasProp(o.Props, prop) {
 					continue
 				}
 				if len(o.Props) == 0 && !hasProp(c.Props, prop) && o.Kind != "cover" {
+					continue
+				}
+			}
+			if dep[key] {
+				o.Dep = true
+				// a clause that is a recorded finding of another property is reported by that property's check; here it
+				// stays an assumption of the callers' proofs (listed as such)
+				skip := false
+				for _, k := range e.known {
+					if k.Kind == "known" && k.Obligation == o.base() && k.Property != prop {
+						e.assumptionsUsed["clause "+o.base()+" of a function this property relies on is a KNOWN FINDING of "+k.Property+" (reported there); the proofs of its callers here assume it"] = true
+						skip = true
+					}
+				}
+				if skip {
 					continue
 				}
 			}
